@@ -213,6 +213,7 @@ pub fn run(tier: &str, seed: u64, outdir: &str) {
                 ("bool-entry", Box::new(|d: &mut Value| { d["credentialSubject"]["extra"] = json!(true); }), true),
                 ("type-without-verifiable-credential", Box::new(|d: &mut Value| { d["type"] = json!(["AnonCredsCredential"]); }), false),
                 ("context-without-base", Box::new(|d: &mut Value| { if let Some(a) = d["@context"].as_array_mut() { a.remove(0); } }), false),
+                ("context-without-anoncreds-vocabulary", Box::new(|d: &mut Value| { if let Some(a) = d["@context"].as_array_mut() { a.retain(|x| !x.is_object()); } }), false),
                 ("foreign-proof-only", Box::new(|d: &mut Value| {
                     d["proof"] = json!({"type": "DataIntegrityProof", "cryptosuite": "eddsa-rdfc-2022", "verificationMethod": "did:web:x#k", "proofPurpose": "assertionMethod", "proofValue": "z3abc"});
                 }), false),
@@ -224,7 +225,7 @@ pub fn run(tier: &str, seed: u64, outdir: &str) {
             ];
             if !thorough {
                 r.shuffle(&mut edits[1..]);
-                edits.truncate(5);
+                edits.truncate(6);
             }
             for (ename, edit, shape_ok) in edits.iter() {
                 let mut d = wdoc.clone();
